@@ -13,6 +13,7 @@
 # See the License for the specific language governing permissions and
 # limitations under the License.
 import asyncio
+import copy
 import inspect
 import logging
 import re
@@ -743,7 +744,9 @@ def create_flow_configs_from_flow_list(flows: List[Flow]) -> Dict[str, FlowConfi
 
         config = FlowConfig(
             id=flow.name,
-            elements=flow.elements,
+            # The expansion modifies elements in place: every runtime needs its own
+            # copy of the parsed flow, which is shared through the RailsConfig
+            elements=copy.deepcopy(flow.elements),
             decorators=convert_decorator_list_to_dictionary(flow.decorators),
             parameters=flow.parameters,
             return_members=flow.return_members,
